@@ -181,3 +181,43 @@ func VerifH_C02_jsonp_body() {
 		verif.Assert(string(readAll(p.Data)) == refJsonpUnescape(string(txt)), "escaped newlines are undone exactly once")
 	}
 }
+
+// VerifH_C02_polling_payload_v3: the same for a revision-3 text payload
+// ("<len>:<packet>..." with ASCII data).
+func VerifH_C02_polling_payload_v3() {
+	p, rec := newPolling("3")
+	n := verif.Choose(3) + 1
+	var pk []inPkt
+	var payload []byte
+	for i := 0; i < n; i++ {
+		switch verif.Choose(3) {
+		case 0:
+			d := verif.BytesN(verif.Int(0, 2))
+			for _, b := range d {
+				verif.Assume(b >= 0x20 && b < 0x7f)
+			}
+			pk = append(pk, inPkt{packet.MESSAGE, d})
+			payload = append(payload, byte('0'+1+len(d)), ':', '4')
+			payload = append(payload, d...)
+		case 1:
+			pk = append(pk, inPkt{packet.PING, nil})
+			payload = append(payload, '1', ':', '2')
+		case 2:
+			pk = append(pk, inPkt{packet.CLOSE, nil})
+			payload = append(payload, '1', ':', '1')
+		}
+	}
+	p.OnData(types.NewStringBuffer(payload))
+	verif.Settle()
+	var want []inPkt
+	closed := false
+	for _, q := range pk {
+		if q.t == packet.CLOSE {
+			closed = true
+			break
+		}
+		want = append(want, q)
+	}
+	checkDelivered(rec, want)
+	verif.Assert((rec.count("close") == 1) == closed, "closed exactly when the payload carried a close packet")
+}
